@@ -9,6 +9,7 @@ Writes seeded/RESULTS.json. /repo must be clean before and is left clean after.
 """
 import json
 import os
+import shutil
 import subprocess
 import sys
 import time
@@ -19,6 +20,13 @@ SEEDED = os.path.join(VERIF, "seeded")
 
 def sh(cmd, **kw):
     return subprocess.run(cmd, text=True, capture_output=True, **kw)
+
+
+def all_replays():
+    out = []
+    for root, _, files in os.walk(os.path.join(VERIF, "replays")):
+        out += [os.path.join(root, f) for f in files]
+    return out
 
 
 def main():
@@ -54,6 +62,7 @@ def main():
             ev = os.path.join(VERIF, "evidence", f"{pid}.json")
             if os.path.exists(ev):
                 saved[ev] = open(ev).read()
+        before = set(all_replays())
         try:
             for pid in [meta["property"]] + meta.get("also", []):
                 t = time.time()
@@ -61,12 +70,20 @@ def main():
                 vio = [l for l in r.stdout.splitlines() if l.startswith("VIOLATION")]
                 entry["checks"][pid] = {"rc": r.returncode, "violations": vio, "wall_s": round(time.time() - t, 1)}
                 print(f"{sid}: check {pid} rc={r.returncode} {vio[:2]}")
+                # keep the first replay of this check next to the seeded change
+                for l in vio[:1]:
+                    rp = [w.split("=", 1)[1] for w in l.split() if w.startswith("replay=")]
+                    if rp and os.path.exists(os.path.join(VERIF, rp[0])):
+                        shutil.copy(os.path.join(VERIF, rp[0]), os.path.join(d, f"caught-by-{pid}.json"))
         finally:
             sh(["git", "-C", "/repo", "reset", "-q", "HEAD", "--", "."])
             sh(["git", "-C", "/repo", "checkout", "--", "."])
             sh(["git", "-C", "/repo", "clean", "-fdq", "crates"])
             for ev, content in saved.items():
                 open(ev, "w").write(content)
+            # replays written while the seeded change was applied do not describe /repo
+            for f in set(all_replays()) - before:
+                os.unlink(f)
         entry["caught"] = any(c["rc"] == 1 and c["violations"] for c in entry["checks"].values())
         results[sid] = entry
         json.dump(results, open(results_path, "w"), indent=1)
